@@ -1,7 +1,6 @@
 package pc
 
 import (
-	"strconv"
 	"fmt"
 	"go/ast"
 	"go/constant"
@@ -9,6 +8,7 @@ import (
 	"go/types"
 	"os"
 	"sort"
+	"strconv"
 	"strings"
 
 	"golang.org/x/tools/go/packages"
@@ -73,21 +73,21 @@ type Engine struct {
 	Func   *ast.FuncDecl
 	Lit    *ast.FuncLit // non-nil while a function literal body is analysed
 
-	noFacts map[types.Object]bool
-	noted   map[ast.Node]bool // bodies whose captured/address-taken variables were recorded in noFacts
-	frames  []*Frame          // helper calls being interpreted in place (innermost last)
-	inlined map[*ast.CallExpr][]*ast.Ident
-	quiet   int
-	targets []target
-	brk     map[ast.Stmt][]*State
-	cont    map[ast.Stmt][]*State
-	labels  map[ast.Stmt]string
-	lits    []*ast.FuncLit
-	Errs    []string
-	sites   map[string]*SiteResult
-	order   []string
-	debug   bool
-	bindingParams bool
+	noFacts        map[types.Object]bool
+	noted          map[ast.Node]bool // bodies whose captured/address-taken variables were recorded in noFacts
+	frames         []*Frame          // helper calls being interpreted in place (innermost last)
+	inlined        map[*ast.CallExpr][]*ast.Ident
+	quiet          int
+	targets        []target
+	brk            map[ast.Stmt][]*State
+	cont           map[ast.Stmt][]*State
+	labels         map[ast.Stmt]string
+	lits           []*ast.FuncLit
+	Errs           []string
+	sites          map[string]*SiteResult
+	order          []string
+	debug          bool
+	bindingParams  bool
 	closureAssigns map[types.Object][]types.Object // call-only closure variable -> captured variables its body assigns
 	// PureDyn: function-typed variables whose call results are remembered like those of pure functions (a client
 	// that needs to know which way `if visit(n)` went within one iteration)
